@@ -104,6 +104,21 @@ CHECKS.update({
     ),
 })
 
+CHECKS.update({
+    "C10": (
+        "generated index-notation programs with re-used index objects; oracle = interpreter value/free indices of input vs output of each pass",
+        "Hypothesis-generated index-notation programs over only four index names (the same Index object in sibling, "
+        "nested and capturing scopes -- a dedicated production builds component tensors whose body binds the index they "
+        "are indexed with), variables used with several components, zeros with free indices, nested list/component "
+        "tensors, optional derivatives; remove_component_tensors, renumber_indices (expression and form), expand_indices "
+        "and their composition must keep shape, free indices and the value on random cells; expand_indices must leave "
+        "no Index.",
+        "Trusts the reference interpreter (free indices are array axes); renumber_indices is compared up to the renaming "
+        "of free indices it performs by design; an exception raised by a pass on a generated program is a violation.",
+        "4/C10",
+    ),
+})
+
 NOT_YET = {}
 
 
